@@ -33,6 +33,8 @@ def run(ctx, rep):
         check_fused_load(crate, vm, rep, cfg)
         check_fused_write(crate, vm, rep, cfg)
         check_fused_root(crate, vm, rep, cfg)
+        from props import c03
+        c03.check_load_name(crate, rep, cfg)     # the unfused LoadName resolves the same way (get_value), so fused == unfused
 
 
 def check_fused_load(crate, vm, rep, cfg):
